@@ -278,6 +278,14 @@ def gen_run(rng):
         spec = f"{subset(0.25)}/{subset(0.25)}/{subset(0.3)}/{subset(0.15)}"
     size = "t" if rng.random() < 0.2 else str(rng.choice([0, 1, 1, 2, 3, 8]))
     count = rng.choice([0, 1, 2, 3, 4, 5, 8, 20]) if size != "t" else rng.choice([1, 2, 3, 5])
+    if rng.random() < 0.15:      # count_inputs_as::<K>() for some kinds, alone or next to constants of other kinds
+        cia = "".join(k for k in KINDS if rng.random() < 0.4) or rng.choice(KINDS)
+        others = [k for k in KINDS if k not in cia]
+        o = "".join(k for k in others if rng.random() < 0.4) or "-"
+        p = "".join(k for k in others if rng.random() < 0.3) or "-"
+        if rng.random() < 0.3:
+            o = rng.choice(cia) if o == "-" else o       # a constant of the SAME kind is overridden
+        return (f"{count} {size} {rng.choice([1, 1, 2, 3])} {o}/{p}/-/-/{cia} {rng.choice('0ao')} {rng.randrange(1000)}")
     if rng.random() < 0.12:      # lazy initialisation: only the first calls of the run allocate; mostly with tuning
         size = "t" if rng.random() < 0.75 else size
         count = rng.choice([1, 2, 3, 5]) if size == "t" else count
@@ -286,9 +294,10 @@ def gen_run(rng):
 
 
 def gen_e2e(rng):
-    """<sample_count> <sample_size> <thread counts> <per-input counter 0|1> <seed>"""
+    """<sample_count> <sample_size> <thread counts> <per-input counter 0|1><allocation mode 0|a|i|x|r> <seed>"""
     th = rng.choice(["1", "2", "3", "1,2", "1,2", "2,1", "1,2,3", "3,1,2", "1,2,4", "2,2", "1,3"])
-    return f"{rng.choice([1, 2, 3, 4, 5, 7, 8])} {rng.choice([1, 1, 2, 3, 5])} {th} {rng.randrange(2)} {rng.randrange(1000)}"
+    return (f"{rng.choice([1, 2, 3, 4, 5, 7, 8])} {rng.choice([1, 1, 2, 3, 5])} {th} "
+            f"{rng.randrange(2)}{rng.choice('00iiixar')} {rng.randrange(1000)}")
 
 
 # --------------------------------------------------------------------------
@@ -346,14 +355,20 @@ def streams(tier, rng):
                  f"4 1 2 {kind}/-/bi/{kind} 1 5"]
     for mode in "0aofsgm":      # what the timed section does with the allocator (memory may be acquired outside it)
         runs += [f"3 2 1 -/-/-/- {mode} 7", f"4 1 2 -/-/i/- {mode} 5", f"6 3 1 -/-/-/- {mode} 11"]
+    for kind in KINDS:     # count_inputs_as::<K>() alone, next to a constant of another kind, overriding one of its own kind
+        other = KINDS[(KINDS.index(kind) + 1) % 4]
+        runs += [f"3 2 1 -/-/-/-/{kind} 0 7", f"3 2 1 {other}/-/-/-/{kind} a 7", f"4 1 2 -/{other}/-/-/{kind} 0 5",
+                 f"3 2 1 {kind}/-/-/-/{kind} 0 9"]
+    runs += ["2 1 2 -/b/-/-/bcyi 0 5", "2 t 1 y/-/-/-/c l 5"]
     runs += ["3 t 1 -/-/-/- l 0", "3 t 1 -/-/-/- l 2", "5 t 1 -/-/i/- l 1", "4 2 1 -/-/-/- l 1"]
     runs += ["8 2 1 -/-/-/- m 21", "8 1 1 b/-/b/- m 2", "2 t 1 -/-/-/- f 3", "2 t 1 -/-/-/- s 4"]
     runs += ["0 2 1 -/-/-/- 0 1", "2 0 1 -/-/b/- 1 3", "1 1 1 -/-/-/- 0 1", "3 2 1 -/-/b/- 1 7", "4 1 2 -/c/i/- 1 5",
              "5 3 1 -/i/-/- 0 9", "2 1 3 bc/y/bi/- 1 4", "0 2 1 i/-/i/- 0 1", "3 3 1 bi/ci/bci/- 1 11"]
-    while len(runs) < (220 if quick else 3500):
+    while len(runs) < (260 if quick else 4000):
         runs.append(gen_run(rng))
 
-    e2e = corpus_cases("C05-e2e") + ["5 2 1,2 0 3", "4 3 2 1 3", "7 1 1,2,3 1 9", "3 2 2,1 1 4", "1 5 1,3 0 8"]
+    e2e = corpus_cases("C05-e2e") + ["5 2 1,2 0 3", "4 3 2 1 3", "7 1 1,2,3 1 9", "3 2 2,1 1 4", "1 5 1,3 0 8",
+                                      "6 1 1,2 0i 3", "4 3 2 1a 3", "7 1 1 0i 5", "5 1 1,2,3 0x 8", "8 2 1,2 1r 2"]
     while len(e2e) < (60 if quick else 800):
         e2e.append(gen_e2e(rng))
 
@@ -375,7 +390,8 @@ def streams(tier, rng):
         Stream("real-runs-debug", "run", runs, compare=compare_run, model_input=mi,
                nontrivial=lambda c, m: m.startswith("IN ") and len(m.split(" ")) > 2 and m.split(" ")[2].count(",") >= 1,
                describe="real Bencher runs (sample_count, explicit or tuned sample_size, threads 1..3, constant counters from the "
-                        "options and from Bencher::counter (before and after input_counter) combined with input_counter of the same "
+                        "options and from Bencher::counter (before and after input_counter) combined with input_counter or "
+                        "count_inputs_as::<K>() of the same "
                         "and of other kinds, the timed section allocating+freeing / only allocating / only freeing / only "
                         "shrinking / only growing memory (acquired by the generator) / nothing / a per-input mix / only in "
                         "the first calls of the run (lazy initialisation, with tuning rounds that are discarded), "
@@ -389,6 +405,9 @@ def streams(tier, rng):
                         "count) with explicit sample_count/sample_size, TSC timer on the virtual clock: every call advances "
                         "the clock by a known amount, so the samples each thread count records are known; each printed row "
                         "(fastest/slowest/median/mean as 4-digit truncations, samples, iters) must stand for the statistics "
+                        "and the allocation blocks shown under it (max alloc / alloc / dealloc / grow / shrink; calls allocate "
+                        "only in the middle time classes, only in the extreme ones, always, at random or never) must be exactly "
+                        "those with a non-zero figure in some sample "
                         "of exactly that run's samples (model: compute_stats; Sb: the declarative order statistics)"),
         Stream("real-runs-release", "run_rel", runs[: len(runs) // 2], compare=compare_run, model_input=mi, release=True,
                nontrivial=lambda c, m: m.startswith("IN ") and len(m.split(" ")) > 2 and m.split(" ")[2].count(",") >= 1),
